@@ -886,6 +886,7 @@ func (in *inst) stmtAccess(c *astutil.Cursor, s ast.Stmt) {
 			}
 		}
 	}
+	in.eventMap(c, s)
 	if !in.touchesShared(s) {
 		return
 	}
@@ -1006,6 +1007,105 @@ func (in *inst) exprString(e ast.Expr) string {
 }
 
 // pureChain: x, x.y, x.y.z with identifiers only.
+// eventMap (R16): the Info map of an event package. A package is passed around by value, but its
+// Info map is one object: the copy kept in the retained event log, the copy a broadcast is
+// encoding and the copy a dispatcher is trimming share it. A statement that deletes from or
+// assigns into such a map is a write (site suffix #evw), a statement that JSON-encodes a whole
+// package is a read of its map (#evr); both get the race witness of R15 in front.
+func (in *inst) eventMap(c *astutil.Cursor, s ast.Stmt) {
+	if in.pkg.Types.Path() == "Havoc/pkg/events" {
+		return // the constructors: every map there is fresh
+	}
+	isInfo := func(e ast.Expr) bool {
+		sel, ok := e.(*ast.SelectorExpr)
+		if !ok || sel.Sel.Name != "Info" {
+			return false
+		}
+		sl, ok := in.info.Selections[sel]
+		if !ok || sl.Kind() != types.FieldVal {
+			return false
+		}
+		n, ok := namedOf(sl.Recv())
+		return ok && n == "Havoc/pkg/packager.Body" && evChain(sel.X)
+	}
+	type acc struct {
+		x     ast.Expr
+		write bool
+	}
+	var out []acc
+	seen := map[string]bool{}
+	add := func(x ast.Expr, w bool) {
+		k := in.exprString(x)
+		if w {
+			k += "#w"
+		}
+		if !seen[k] {
+			seen[k] = true
+			out = append(out, acc{x, w})
+		}
+	}
+	writes := map[ast.Expr]bool{}
+	if as, ok := s.(*ast.AssignStmt); ok {
+		for _, l := range as.Lhs {
+			if ix, ok := l.(*ast.IndexExpr); ok {
+				writes[ix] = true
+			}
+		}
+	}
+	for _, h := range headerExprs(s) {
+		if h == nil || isNilNode(h) {
+			continue
+		}
+		ast.Inspect(h, func(n ast.Node) bool {
+			switch x := n.(type) {
+			case *ast.FuncLit:
+				return false
+			case *ast.IndexExpr:
+				if writes[x] && isInfo(x.X) {
+					add(x.X, true)
+				}
+			case *ast.CallExpr:
+				if id, ok := x.Fun.(*ast.Ident); ok && id.Name == "delete" && len(x.Args) == 2 && isInfo(x.Args[0]) {
+					add(x.Args[0], true)
+				}
+				if sel, ok := x.Fun.(*ast.SelectorExpr); ok && (sel.Sel.Name == "Encode" || sel.Sel.Name == "Marshal") && len(x.Args) == 1 && evChain(x.Args[0]) {
+					if n, ok := namedOf(in.info.TypeOf(x.Args[0])); ok && n == "Havoc/pkg/packager.Package" {
+						if _, isPtr := in.info.TypeOf(x.Args[0]).(*types.Pointer); !isPtr {
+							add(&ast.SelectorExpr{X: &ast.SelectorExpr{X: x.Args[0], Sel: ast.NewIdent("Body")}, Sel: ast.NewIdent("Info")}, false)
+						}
+					}
+				}
+			}
+			return true
+		})
+	}
+	for _, m := range out {
+		st.mapAcc++
+		w, suffix := "false", "#evr"
+		if m.write {
+			w, suffix = "true", "#evw"
+		}
+		site := &ast.BasicLit{Kind: token.STRING, Value: strconv.Quote(in.site(s) + suffix)}
+		c.InsertBefore(&ast.ExprStmt{X: in.call("MapAccess", site, m.x, ast.NewIdent(w))})
+	}
+}
+
+// evChain: identifiers, field selections and indexing by an identifier or literal (no calls).
+func evChain(e ast.Expr) bool {
+	switch x := e.(type) {
+	case *ast.Ident:
+		return true
+	case *ast.SelectorExpr:
+		return evChain(x.X)
+	case *ast.IndexExpr:
+		switch x.Index.(type) {
+		case *ast.Ident, *ast.BasicLit:
+			return evChain(x.X)
+		}
+	}
+	return false
+}
+
 func pureChain(e ast.Expr) bool {
 	switch x := e.(type) {
 	case *ast.Ident:
@@ -1020,6 +1120,7 @@ func (in *inst) assign(c *astutil.Cursor, as *ast.AssignStmt) {
 	if !in.canInsert(c) {
 		return
 	}
+	in.eventMap(c, as)
 	// R15: reads and writes of a map that lives in a shared struct
 	if ms := in.mapAccesses(as); len(ms) > 0 {
 		for _, m := range ms {
